@@ -308,6 +308,65 @@ def run_xa(tus, cfg=None, st=None, tables=None, flat=True, root=REPO, compdb_roo
     return facts
 
 
+def tree_hash(root=REPO):
+    """content hash of every source/header under src/ plus the analyzer and the
+    build configuration: the key of the fact cache."""
+    h = hashlib.sha256()
+    h.update(open(XA_SRC, "rb").read())
+    h.update(_cmake_inputs_hash(root).encode())
+    for dirpath, dirs, files in os.walk(os.path.join(root, "src")):
+        dirs.sort()
+        for fn in sorted(files):
+            if fn.endswith((".cpp", ".hpp", ".c", ".h")):
+                p = os.path.join(dirpath, fn)
+                h.update(p[len(root):].encode())
+                with open(p, "rb") as fh:
+                    h.update(fh.read())
+    return h.hexdigest()[:20]
+
+
+_LIB = {}
+
+
+def library_facts(root=REPO):
+    """flat facts of every library translation unit of `root`.  Re-parsed whenever
+    any source, header, CMake input or the analyzer changed (content hash); an
+    identical tree re-uses the facts extracted by an earlier check of the same
+    sweep."""
+    import pickle
+    key = tree_hash(root)
+    if key in _LIB:
+        return _LIB[key]
+    os.makedirs(CACHE, exist_ok=True)
+    path = os.path.join(CACHE, "facts-%s.pkl" % key)
+    f = None
+    if os.path.exists(path):
+        try:
+            with open(path, "rb") as fh:
+                f = pickle.load(fh)
+        except Exception:
+            f = None
+    if f is None:
+        f = run_xa(library_tus(root), root=root)
+        f.cache_hit = False
+        tmp = path + ".tmp%d" % os.getpid()
+        sys.setrecursionlimit(100000)
+        with open(tmp, "wb") as fh:
+            pickle.dump(f, fh, protocol=4)
+        os.replace(tmp, path)
+        # keep at most three fact caches
+        olds = sorted(glob.glob(os.path.join(CACHE, "facts-*.pkl")), key=os.path.getmtime)
+        for o in olds[:-3]:
+            try:
+                os.remove(o)
+            except OSError:
+                pass
+    else:
+        f.cache_hit = True
+    _LIB[key] = f
+    return f
+
+
 def tus_matching(patterns, root=REPO):
     """library TUs whose repo-relative path matches any of the glob patterns."""
     import fnmatch
